@@ -15,8 +15,8 @@ import (
 // search a transformed copy of the text (lower-cased, decoded, trimmed) and reuse the offset on the
 // original, or that count runes where bytes are meant, go wrong exactly when a character whose
 // transformed length differs stands BEFORE the thing searched for, and the drift adds up with every
-// further such character. So: every sequence of <= 3 units (and every homogeneous run up to 12, plus
-// 16/32/64) over an alphabet of characters chosen by byte-length behaviour, and every single byte
+// further such character. So: every sequence of <= 3 units (thorough: 4; and every homogeneous run
+// up to 12, plus 16/32/64) over an alphabet of characters chosen by byte-length behaviour, and every single byte
 // value, in every container below.
 var unitAlphabet = []string{
 	"\xe9", "\x80", "\xff", "\xc3", // invalid UTF-8: lone Latin-1 letter, lone continuation, never-valid byte, truncated lead
@@ -35,8 +35,14 @@ var unitAlphabet = []string{
 
 var unitRuns = []int{4, 5, 6, 7, 8, 9, 10, 11, 12, 16, 32, 64}
 
-// unitSeqs: all 256 single bytes, every unit sequence of length 1..3, every homogeneous run.
-var unitSeqs = func() []string {
+// unitSeqs(L): all 256 single bytes, every unit sequence of length 1..L, every homogeneous run.
+// The order is fixed (case ids index into it).
+var unitSeqCache = map[int][]string{}
+
+func unitSeqs(maxLen int) []string {
+	if s, ok := unitSeqCache[maxLen]; ok {
+		return s
+	}
 	seen := map[string]bool{}
 	var out []string
 	add := func(s string) {
@@ -48,22 +54,27 @@ var unitSeqs = func() []string {
 	for b := 0; b < 256; b++ {
 		add(string([]byte{byte(b)}))
 	}
-	for _, a := range unitAlphabet {
-		add(a)
-		for _, b := range unitAlphabet {
-			add(a + b)
-			for _, c := range unitAlphabet {
-				add(a + b + c)
-			}
+	var rec func(cur string, n int)
+	rec = func(cur string, n int) {
+		if n > 0 {
+			add(cur)
+		}
+		if n == maxLen {
+			return
+		}
+		for _, u := range unitAlphabet {
+			rec(cur+u, n+1)
 		}
 	}
+	rec("", 0)
 	for _, a := range unitAlphabet {
 		for _, r := range unitRuns {
 			add(strings.Repeat(a, r))
 		}
 	}
+	unitSeqCache[maxLen] = out
 	return out
-}()
+}
 
 type unitContainer struct {
 	Mode      int
@@ -122,12 +133,13 @@ var unitContainers = func() []unitContainer {
 	return t
 }()
 
-func unitSrc(c, q int) string {
-	return unitContainers[c].Pre + unitSeqs[q] + unitContainers[c].Post
+func unitSrc(c, maxLen, q int) string {
+	return unitContainers[c].Pre + unitSeqs(maxLen)[q] + unitContainers[c].Post
 }
 
 type unitShard struct {
 	C    int `json:"c"`
+	L    int `json:"l"` // sequences of <= L units
 	From int `json:"from"`
 	To   int `json:"to"`
 }
@@ -141,8 +153,8 @@ func unitWorker(w *pool.W, arg json.RawMessage) {
 	var sh unitShard
 	json.Unmarshal(arg, &sh)
 	a := newAcc(w, "f-units-in-containers")
-	for q := sh.From; q < sh.To && q < len(unitSeqs); q++ {
-		a.one(fmt.Sprintf("unit|%d|%d", sh.C, q), a.sum.Fam, unitContainers[sh.C].Mode, unitSrc(sh.C, q), false, "")
+	for q := sh.From; q < sh.To && q < len(unitSeqs(sh.L)); q++ {
+		a.one(fmt.Sprintf("unit|%d|%d|%d", sh.C, sh.L, q), a.sum.Fam, unitContainers[sh.C].Mode, unitSrc(sh.C, sh.L, q), false, "")
 	}
 	a.flush()
 }
@@ -187,7 +199,7 @@ var reparseCarriers = []struct{ Kind, Text string }{
 	{"interpolated-string", `"{%B}"`},
 	{"interpolated-string", `"v={%B};"`},
 	{"interpolated-string", `"{%B}{%B}"`},
-	{"heredoc", "<<<EOT\nv={%B}\nEOT\n"},
+	{"interpolated-string", "<<<EOT\nv={%B}\nEOT\n"},
 	{"parenthesized", `(%B)`},
 	{"arrow-fn-call", `(fn($w) => %B)(1)`},
 	{"closure-call", `(function() use ($a, $o, $i) { return %B; })()`},
@@ -195,10 +207,12 @@ var reparseCarriers = []struct{ Kind, Text string }{
 
 var reparseHeads = []string{"$a", "$o"}
 
-// pieces: postfix / infix continuations, each complete in itself
+// pieces: postfix / infix continuations, each complete in itself. (No double-quoted string inside
+// a body: origami's string scanner ends the literal at the first inner quote, so "{$a . "s"}" is
+// three juxtaposed tokens in this language, not a complete operand.)
 var reparsePieces = []string{
 	"[0]", "[$i]", "->p", "->m()",
-	" -1", " +1", " -1.5", " - 1", " -$i", " * 2", " ** 2", ` . "s"`, " ?? 0", " ? 1 : 2",
+	" -1", " +1", " -1.5", " - 1", " -$i", " * 2", " ** 2", " . 's'", " ?? 0", " ? 1 : 2",
 }
 
 func reparseBodies(maxLen int) []string {
@@ -219,14 +233,19 @@ func reparseBodies(maxLen int) []string {
 	return out
 }
 
-func reparseSrc(mode, site, carrier int, body string) (src, alt string) {
+var noSpeculation = strings.NewReplacer("$x,", "7,", "$y,", "8,")
+
+// reparseSrc returns the program, its no-speculation twin (same site, the leading variables of the
+// list replaced by literals, so the operand is parsed once) and the operand alone at `echo E;`.
+func reparseSrc(mode, site, carrier int, body string) (src, alt, alt0 string) {
 	e := strings.ReplaceAll(reparseCarriers[carrier].Text, "%B", body)
 	head := reparsePrelude
 	if mode == 1 {
 		head = "<?php\n" + head
 	}
 	src = head + strings.ReplaceAll(reparseSites[site], "%E", e) + "\n"
-	alt = head + strings.ReplaceAll(reparseSites[0], "%E", e) + "\n"
+	alt = head + strings.ReplaceAll(noSpeculation.Replace(reparseSites[site]), "%E", e) + "\n"
+	alt0 = head + strings.ReplaceAll(reparseSites[0], "%E", e) + "\n"
 	return
 }
 
@@ -248,9 +267,9 @@ func reparseWorker(w *pool.W, arg json.RawMessage) {
 	a := newAcc(w, "g-reparsed-operands")
 	ran := 0
 	for bi, body := range reparseBodies(sh.MaxLen) {
-		src, alt := reparseSrc(sh.Mode, sh.Site, sh.Carrier, body)
+		src, alt, alt0 := reparseSrc(sh.Mode, sh.Site, sh.Carrier, body)
 		before := a.sum.Outcomes["run:ok"]
-		a.oneAlt(fmt.Sprintf("rep|%d|%d|%d|%d|%d", sh.Mode, sh.Site, sh.Carrier, sh.MaxLen, bi), a.sum.Fam, sh.Mode, src, reparseCarriers[sh.Carrier].Kind+"\x00"+alt, "")
+		a.oneAlt(fmt.Sprintf("rep|%d|%d|%d|%d|%d", sh.Mode, sh.Site, sh.Carrier, sh.MaxLen, bi), a.sum.Fam, sh.Mode, src, reparseCarriers[sh.Carrier].Kind+"\x00"+alt+"\x00"+alt0, "")
 		ran += a.sum.Outcomes["run:ok"] - before
 	}
 	if ran == 0 && !a.stop {
